@@ -157,6 +157,27 @@ def _is_copy_of(expr: ast.expr, what: str) -> bool:
     return False
 
 
+def inline_self_call(program: Program, cls_name: str, e):
+    """If e is ``self.m()`` and m's body is a single ``return <expr>``, return that expr."""
+    if isinstance(e, ast.Call) and is_self_attr(e.func) and not e.args and not e.keywords:
+        g = program.cls(cls_name).resolve(e.func.attr)
+        if g is not None:
+            b = g.body_without_docstring()
+            if len(b) == 1 and isinstance(b[0], ast.Return) and b[0].value is not None:
+                return b[0].value
+    return e
+
+
+def filtered_copy_of(expr, what: str):
+    """expr is a dict comprehension over ``what``.items() that keeps only some entries:
+    returns the filter text, else None."""
+    if isinstance(expr, ast.DictComp) and len(expr.generators) == 1:
+        g = expr.generators[0]
+        if norm(g.iter) == f"{what}.items()" and g.ifs:
+            return " and ".join(norm(i) for i in g.ifs)
+    return None
+
+
 def rule_r3(rep, program: Program):
     r = rep.rule("R3", "ChainState.copy passes a copy of the cache dict and a copy of every variable value", floor=2)
     f = program.method("ChainState", "copy")
@@ -167,9 +188,11 @@ def rule_r3(rep, program: Program):
     call = calls[0]
     kws = {k.arg: k.value for k in call.keywords}
     # cache
-    cache = kws.get("_cache")
+    cache = inline_self_call(program, "ChainState", kws.get("_cache"))
     r.inst({"site": "ChainState.copy:_cache", "expr": norm(cache)})
-    if cache is not None and norm(cache) == "self._cache":
+    if cache is not None and filtered_copy_of(cache, "self._cache"):
+        pass  # a filtered copy is still an independent dict: transparent (C18-R4 reports the loss)
+    elif cache is not None and norm(cache) == "self._cache":
         r.violate(PROP, "ChainState.copy:_cache=shared", "copy() shares the cache dict with the original: a recomputation after an assignment on one object overwrites / resurrects entries seen by the other", node=call, file=f.file)
     elif cache is not None and not (_is_copy_of(cache, "self._cache") or isinstance(cache, ast.Dict) or norm(cache) in ("None", "dict()")):
         msg = f"ChainState.copy: unrecognised _cache expression {norm(cache)}"
@@ -326,7 +349,9 @@ def rule_r5(rep, program: Program):
         if not (isinstance(k, ast.Constant) and isinstance(k.value, str)):
             msg = "ChainState.__getstate__: non-literal key"
             raise AnalysisError(msg)
-        fields = {n.attr for n in ast.walk(v) if is_self_attr(n)}
+        v = inline_self_call(program, "ChainState", v)
+        methods = set(program.cls("ChainState").methods)
+        fields = {n.attr for n in ast.walk(v) if is_self_attr(n) and n.attr not in methods}
         if len(fields) != 1:
             msg = f"ChainState.__getstate__: value for {k.value} does not read exactly one field"
             raise AnalysisError(msg)
